@@ -237,6 +237,43 @@ def read_table_independent(root: Any) -> Dict[str, Any]:
 # ---------------------------------------------------------------------------------------------------
 # running a case
 # ---------------------------------------------------------------------------------------------------
+def apply_prehistory(sc: Any, t0: Any, steps: List[Dict[str, Any]]) -> None:
+    """Build a table's committed history through the library's own operations (setup thread, no actor; the virtual clock
+    advances 10 ms per step, so step i is stamped start + 10 * (i + 1)).  Steps:
+      {"do": "append"}                       append one row x = -(number of appends so far + 1)
+      {"do": "set_property", "key", "value"} a metadata-only commit that sets a table property (there is no setter API: the
+                                             library's own tests set properties through MetadataManager.commit as well)
+      {"do": "expire", "keep": n}            expire_snapshots with a cutoff that keeps the n newest snapshots (and the current)
+      {"do": "delete_snapshot", "which": "oldest"|"current"}"""
+    nappend = 0
+    for st in steps:
+        sc.clock_ms += 10
+        do = st["do"]
+        if do == "append":
+            nappend += 1
+            t0.append_records([{"x": -nappend}])
+        elif do == "set_property":
+            base = t0.metadata_manager.refresh()
+            new = t0.metadata_manager.refresh()
+            new.properties[st["key"]] = st["value"]
+            t0.metadata_manager.commit(base, new)
+        elif do == "expire":
+            md = t0.metadata_manager.refresh()
+            ts = sorted(s.timestamp_ms for s in md.snapshots)
+            keep = int(st.get("keep", 1))
+            cutoff = ts[-keep] if 0 < keep <= len(ts) else (ts[-1] + 1 if ts else 0)
+            with t0.new_transaction() as tx:
+                tx.expire_snapshots(cutoff)
+                tx.commit()
+        elif do == "delete_snapshot":
+            md = t0.metadata_manager.refresh()
+            order = [e.snapshot_id for e in md.snapshot_log] or [s.snapshot_id for s in md.snapshots]
+            sid = md.current_snapshot_id if st.get("which") == "current" else order[0]
+            t0.snapshot_manager.delete_snapshot(sid)
+        else:
+            raise ValueError(f"prehistory step {st!r}")
+
+
 _S3_TEMPLATES: Dict[str, Dict[str, Any]] = {}
 
 
@@ -367,7 +404,16 @@ def run_case(scratch: str, case: Dict[str, Any], chooser_factory: Callable[[S.Sc
             return S.instrument_backend(sc, LocalStorageBackend(tp), lock_mode=lock_mode)
         reader_root = root
 
-    template = os.path.join(scratch, f"template-{backend_kind}-{nsnap}")
+    # `prehistory` (optional): the committed history the table has BEFORE the run, as a list of steps (see
+    # apply_prehistory) -- table properties, more / expired / deleted snapshots.  Default: `nsnap` appends.
+    prehistory = case.get("prehistory")
+    if prehistory is not None:
+        import hashlib
+        nsnap = len(prehistory)
+        tkey = f"{nsnap}-" + hashlib.sha1(json.dumps(prehistory, sort_keys=True).encode()).hexdigest()[:12]
+    else:
+        tkey = str(nsnap)
+    template = os.path.join(scratch, f"template-{backend_kind}-{tkey}")
     with S.patched(sc, factory, shared_rlock=True):
         fresh = setup is not None or (backend_kind == "local" and not os.path.exists(template)) \
             or (backend_kind != "local" and template not in _S3_TEMPLATES)
@@ -375,9 +421,12 @@ def run_case(scratch: str, case: Dict[str, Any], chooser_factory: Callable[[S.Sc
             saved_mode, lock_mode = lock_mode, "grant_all" if backend_kind != "local" else lock_mode
             base = root if (setup is not None or backend_kind != "local") else template
             t0 = datashard.create_table(base, schema)
-            for i in range(nsnap):
-                sc.clock_ms += 10
-                t0.append_records([{"x": -(i + 1)}])
+            if prehistory is not None:
+                apply_prehistory(sc, t0, prehistory)
+            else:
+                for i in range(nsnap):
+                    sc.clock_ms += 10
+                    t0.append_records([{"x": -(i + 1)}])
             if setup is not None:
                 setup(t0)
             lock_mode = saved_mode
